@@ -18,39 +18,127 @@
 #include <stdarg.h>
 
 /* ======================================================================================
- * 1. ghost state
+ * 1. ghost state — ONE object (vgc), so that contracts name one assigns target per group
+ *    (DFCC's write-set bookkeeping is quadratic in the number of targets).  The vg_* names
+ *    used everywhere are aliases of its members.
  * ====================================================================================== */
-unsigned long vg_spawned;          /* number of processes spawned: system/popen/fork/exec*            */
-unsigned long vg_saw_preproc;      /* number of times a line matched the directive word "preproc "    */
-unsigned long vg_saw_bq;           /* set by spifconf_shell_expand's contract: a backquote was read   */
-unsigned long vg_saw_exec;         /* set by spifconf_shell_expand's contract: %exec( was matched     */
-long          vg_open_streams;     /* fopen/fdopen successes minus fclose calls                       */
-long          vg_open_dirs;        /* opendir successes minus closedir calls                          */
-unsigned long vg_seq;              /* global event counter (orders chomp / expand / handler calls)    */
-unsigned long vg_t_chomp, vg_t_expand;   /* value of vg_seq when the line was chomped / expanded      */
+#define VLOG_MAX 4
+#define VK_BEGIN 1
+#define VK_END   2
+#define VK_TEXT  3
+typedef struct {
+    unsigned char id;            /* context table index the parser selected              */
+    ctx_handler_t h;             /* the pointer it read from context[id].handler         */
+    int kind;                    /* VK_BEGIN / VK_END / VK_TEXT (first byte of the text)  */
+    spif_charptr_t text;
+    void *in, *out;              /* state received / returned                            */
+    unsigned long seq;           /* vg_seq at the call                                   */
+} vlog_t;
 
-/* fgets stub <-> parse loop bookkeeping */
-unsigned long vg_fg_budget;        /* chunks the environment will still deliver (files are finite)    */
-_Bool         vg_fg_mid;           /* the previous chunk of the current stream had no newline         */
-_Bool         vg_fg_nl;            /* last successful fgets: C-string view of the chunk has a newline */
-size_t        vg_fg_len;           /* last successful fgets: position of a NUL in the chunk           */
-char         *vg_fg_buf;           /* last successful fgets: buffer                                   */
-_Bool         vg_fg_ok;            /* last fgets call returned non-NULL                               */
-_Bool         vg_fg_hdr;           /* the stream was just opened by fopen: its next chunk is the      */
-                                   /* header (magic) line that spifconf_open_file consumes            */
-unsigned long vg_deliverable;      /* complete lines (first chunk of a line, ends in newline) read    */
-unsigned long vg_pl_calls;         /* spifconf_parse_line calls (bumped by the entry annotation)      */
-
-/* umask / mkstemp / fchmod recording (spiftool_temp_file) */
-mode_t        vg_umask_cur;        /* the process umask                                               */
-unsigned long vg_umask_calls;
-mode_t        vg_mkstemp_umask;    /* umask in force when mkstemp ran                                 */
-_Bool         vg_mkstemp_tpl_ok;   /* template was a C string ending in XXXXXX                        */
-unsigned long vg_mkstemp_calls;
-int           vg_mkstemp_fd;       /* descriptor mkstemp returned (-1: failed)                        */
-int           vg_fchmod_fd;        /* last successful fchmod: descriptor, mode                        */
-mode_t        vg_fchmod_mode;
-unsigned long vg_fchmod_calls;
+struct vconf_ghost {
+    /* spawn group */
+    struct {
+        unsigned long spawned;       /* processes spawned: system/popen/fork/exec*                    */
+        unsigned long saw_preproc;   /* times a line matched the directive word "preproc "            */
+        unsigned long saw_bq;        /* shell_expand's contract: a backquote was read                 */
+        unsigned long saw_exec;      /* shell_expand's contract: %exec( was matched                   */
+    } sp;
+    long open_streams;               /* fopen/fdopen successes minus fclose calls                     */
+    long open_dirs;                  /* opendir successes minus closedir calls                        */
+    unsigned long dir_budget;        /* directory entries the environment still delivers              */
+    size_t dname_len;                /* a NUL position of the d_name readdir handed out last          */
+    /* event order */
+    struct {
+        unsigned long seq;           /* global event counter (orders chomp / expand / handler calls)  */
+        unsigned long t_chomp, t_expand;   /* vg_seq when the line was chomped / expanded             */
+    } ev;
+    /* fgets stub <-> parse loop bookkeeping */
+    struct {
+        unsigned long budget;        /* chunks the environment will still deliver (files are finite)  */
+        _Bool mid;                   /* the previous chunk of the current stream had no newline       */
+        _Bool nl;                    /* last successful fgets: C-string view has a newline            */
+        size_t len;                  /* last successful fgets: position of a NUL in the chunk         */
+        char *buf;                   /* last successful fgets: buffer                                 */
+        _Bool ok;                    /* last fgets call returned non-NULL                             */
+        _Bool hdr;                   /* stream just opened by fopen: next chunk is the header line    */
+        unsigned long deliverable;   /* complete lines (line-initial chunk ending in newline) read    */
+    } fg;
+    unsigned long pl_calls;          /* spifconf_parse_line calls (bumped by the entry annotation)    */
+    /* umask / mkstemp / fchmod recording (spiftool_temp_file) */
+    struct {
+        mode_t umask_cur;            /* the process umask                                             */
+        unsigned long umask_calls;
+        mode_t mkstemp_umask;        /* umask in force when mkstemp ran                               */
+        _Bool mkstemp_tpl_ok;        /* template was a C string ending in XXXXXX                      */
+        unsigned long mkstemp_calls;
+        int mkstemp_fd;              /* descriptor mkstemp returned (-1: failed)                      */
+        int fchmod_fd;               /* last successful fchmod: descriptor, mode                      */
+        mode_t fchmod_mode;
+        unsigned long fchmod_calls;
+        size_t tpl_len;              /* a NUL position of the name spiftool_temp_file hands back      */
+    } tf;
+    /* handler log (re-binding 6a) */
+    struct {
+        vlog_t log[VLOG_MAX];        /* ring: call number c is in log[c % VLOG_MAX]                   */
+        unsigned long nlog;          /* handler calls so far                                          */
+        unsigned char call_id;
+        ctx_handler_t call_h;
+    } hl;
+    /* strings.c callee contracts */
+    struct {
+        char line[16];               /* the chomped line: first 16 bytes of the text chomp leaves     */
+        size_t gw_len;               /* ghost length of the word get_word returned                    */
+        size_t se_len;               /* a NUL position of the text shell_expand left in s             */
+    } st;
+    /* context lookup (re-binding 6b) */
+    struct {
+        int cmp_last;                /* result of the last strcasecmp call                            */
+        int at_k;                    /* outcome of the comparison with context[vg_k].name             */
+        unsigned long res;           /* last result of v_ctx_lookup                                   */
+        int hit;                     /* outcome of the comparison at the returned index               */
+    } lk;
+} vgc;
+#define vg_spawned        vgc.sp.spawned
+#define vg_saw_preproc    vgc.sp.saw_preproc
+#define vg_saw_bq         vgc.sp.saw_bq
+#define vg_saw_exec       vgc.sp.saw_exec
+#define vg_open_streams   vgc.open_streams
+#define vg_open_dirs      vgc.open_dirs
+#define vg_dir_budget     vgc.dir_budget
+#define vg_dname_len      vgc.dname_len
+#define vg_seq            vgc.ev.seq
+#define vg_t_chomp        vgc.ev.t_chomp
+#define vg_t_expand       vgc.ev.t_expand
+#define vg_fg_budget      vgc.fg.budget
+#define vg_fg_mid         vgc.fg.mid
+#define vg_fg_nl          vgc.fg.nl
+#define vg_fg_len         vgc.fg.len
+#define vg_fg_buf         vgc.fg.buf
+#define vg_fg_ok          vgc.fg.ok
+#define vg_fg_hdr         vgc.fg.hdr
+#define vg_deliverable    vgc.fg.deliverable
+#define vg_pl_calls       vgc.pl_calls
+#define vg_umask_cur      vgc.tf.umask_cur
+#define vg_umask_calls    vgc.tf.umask_calls
+#define vg_mkstemp_umask  vgc.tf.mkstemp_umask
+#define vg_mkstemp_tpl_ok vgc.tf.mkstemp_tpl_ok
+#define vg_mkstemp_calls  vgc.tf.mkstemp_calls
+#define vg_mkstemp_fd     vgc.tf.mkstemp_fd
+#define vg_fchmod_fd      vgc.tf.fchmod_fd
+#define vg_fchmod_mode    vgc.tf.fchmod_mode
+#define vg_fchmod_calls   vgc.tf.fchmod_calls
+#define vg_tpl_len        vgc.tf.tpl_len
+#define vg_log            vgc.hl.log
+#define vg_nlog           vgc.hl.nlog
+#define vg_call_id        vgc.hl.call_id
+#define vg_call_h         vgc.hl.call_h
+#define vg_line           vgc.st.line
+#define vg_gw_len         vgc.st.gw_len
+#define vg_se_len         vgc.st.se_len
+#define vg_cmp_last       vgc.lk.cmp_last
+#define vg_lk_at_k        vgc.lk.at_k
+#define vg_lk             vgc.lk.res
+#define vg_lk_hit         vgc.lk.hit
 
 /* ======================================================================================
  * 2. comparison family (replaces env.h's: units define VERIF_OWN_STRCMP)
@@ -69,7 +157,6 @@ unsigned long vg_fchmod_calls;
     VCMP_STEP(0, F) VCMP_STEP(1, F) VCMP_STEP(2, F) VCMP_STEP(3, F) VCMP_STEP(4, F) \
     VCMP_STEP(5, F) VCMP_STEP(6, F) VCMP_STEP(7, F) VCMP_STEP(8, F)
 
-int vg_cmp_last;                   /* result of the last strcasecmp call */
 
 static int v_cmp_tail(void) { int r = nondet_int(); return r; }
 
@@ -262,7 +349,6 @@ DIR *opendir(const char *path)
     vg_open_dirs++;
     return (DIR *) malloc(sizeof(struct v_dir));
 }
-unsigned long vg_dir_budget;       /* directory entries the environment still delivers */
 struct dirent *readdir(DIR *d)
 {
     __CPROVER_assert(d != NULL && __CPROVER_rw_ok(d, sizeof(struct v_dir)), "readdir: directory stream valid");
@@ -273,7 +359,7 @@ struct dirent *readdir(DIR *d)
     size_t r = nondet_size_t();
     __CPROVER_assume(r >= 1 && r < sizeof(v->ent.d_name));     /* names are 1..255 bytes */
     v->ent.d_name[r] = 0;
-    vg_n3 = r;                                                    /* ghost: a NUL position of the name */
+    vg_dname_len = r;
     return &v->ent;
 }
 int closedir(DIR *d)
@@ -412,23 +498,6 @@ int snprintf(char *d, size_t size, const char *fmt, ...)
  *      and is proved in its own unit (C09.ctx_lookup); callers use its contract.
  * ====================================================================================== */
 #ifdef VERIF_CONF_REBIND
-#define VLOG_MAX 4
-#define VK_BEGIN 1
-#define VK_END   2
-#define VK_TEXT  3
-typedef struct {
-    unsigned char id;            /* context table index the parser selected              */
-    ctx_handler_t h;             /* the pointer it read from context[id].handler         */
-    int kind;                    /* VK_BEGIN / VK_END / VK_TEXT (first byte of the text)  */
-    spif_charptr_t text;
-    void *in, *out;              /* state received / returned                            */
-    unsigned long seq;           /* vg_seq at the call                                   */
-} vlog_t;
-vlog_t vg_log[VLOG_MAX];         /* ring: call number c is in vg_log[c % VLOG_MAX]       */
-unsigned long vg_nlog;           /* handler calls so far                                 */
-unsigned char vg_call_id;
-ctx_handler_t vg_call_h;
-
 void *vhandler(spif_charptr_t text, void *state)
 {
     __CPROVER_assert(text != NULL && __CPROVER_r_ok(text, 1), "handler: text readable");
